@@ -641,6 +641,11 @@ class EGraph:
                 return None
             if el == "deref":
                 r = self._pointee(cur_inst, cur_l)
+                if r is None and not path and self._is_symbolic_arg(cur_inst, cur_l):
+                    # pointee of a pointer argument of the entry (an object we never see constructed): symbolic slot
+                    path = ("*",)
+                    i += 1
+                    continue
                 if r is None or path:
                     return None
                 cur_inst, pl = r
@@ -656,6 +661,17 @@ class EGraph:
                 return None
             i += 1
         return (cur_inst.id, cur_l, path)
+
+    def _is_symbolic_arg(self, inst, l):
+        """l is a pointer-typed parameter of an instance whose caller operand is unknown (entry / maybe-called closure)"""
+        if not (1 <= l <= inst.body["argc"]):
+            return False
+        if self.prog.defs(inst.key).get(l):
+            return False
+        if inst.kind == "call":
+            return False
+        ty = inst.body["locals"][l]["ty"]
+        return ty.startswith("&")
 
     def _pointee(self, inst, l):
         """the place a pointer-typed local refers to (through single defs / args)."""
@@ -676,7 +692,11 @@ class EGraph:
                 if l - 1 < len(pt["args"]):
                     o = pt["args"][l - 1]
                     if o["k"] in ("copy", "move") and not o["p"]["proj"]:
-                        return self._pointee(inst.parent, o["p"]["l"])
+                        r = self._pointee(inst.parent, o["p"]["l"])
+                        if r is None and self._is_symbolic_arg(inst.parent, o["p"]["l"]):
+                            # the caller passes its own (symbolic) pointer argument straight through
+                            return (inst.parent, {"l": o["p"]["l"], "proj": ["deref"]})
+                        return r
             return None
         if len(defs) != 1:
             return None
@@ -691,7 +711,10 @@ class EGraph:
                 # &(*x) re-borrow: keep as a place; slot_of resolves the inner deref
                 return (inst, pl)
             if rv["k"] == "use" and rv["a"]["k"] in ("copy", "move") and not rv["a"]["p"]["proj"]:
-                return self._pointee(inst, rv["a"]["p"]["l"])
+                r = self._pointee(inst, rv["a"]["p"]["l"])
+                if r is None and self._is_symbolic_arg(inst, rv["a"]["p"]["l"]):
+                    return (inst, {"l": rv["a"]["p"]["l"], "proj": ["deref"]})
+                return r
             return None
         else:
             t = body["blocks"][d[1]]["term"]
@@ -834,6 +857,8 @@ class Product:
                     if r is not None:
                         sl = self.g.slot_of(r[0], r[1])
                         self._kill(tags, sl)
+                    elif self.g._is_symbolic_arg(inst, l):
+                        self._kill(tags, (inst.id, l, ("*",)))
 
     def _call_event(self, inst, n, t, tags):
         c = t.get("callee")
